@@ -32,3 +32,25 @@ for src in c04_gen c04_inl; do
 done
 build_c c04_c gcc c04_c__gcc -O0
 build_c c04_c clang c04_c__clang -O0
+# --- C04 multi-unit debuggee: rlib crate progs-src/c04_mulib.rs (generic + #[inline] functions) + binary crate
+# progs-src/c04_mu.rs split into several codegen units: ONE source file has line rows in several compilation units.
+build_mu() { # toolchain name flags...
+    tc=$1; out=progs/$2; dir=progs/c04_mu.d/$2; shift 2
+    if [ ! -x "$out" ] || [ progs-src/c04_mu.rs -nt "$out" ] || [ progs-src/c04_mulib.rs -nt "$out" ] || [ tools/progs.d/c04.sh -nt "$out" ]; then
+        if rustup run "$tc" rustc --version >/dev/null 2>&1; then
+            mkdir -p "$dir"
+            { rustup run "$tc" rustc -g "$@" --crate-type rlib --crate-name c04_mulib progs-src/c04_mulib.rs --out-dir "$dir" \
+              && rustup run "$tc" rustc -g "$@" -C codegen-units=16 --extern c04_mulib="$dir/libc04_mulib.rlib" progs-src/c04_mu.rs -o "$out"; } 2>"$dir/rustc.log" \
+              || echo "build_progs: $out not built (rustc $tc $*), see $dir/rustc.log" >&2
+        else
+            echo "build_progs: toolchain $tc missing, $out skipped" >&2
+        fi
+    fi
+}
+for tc in 1.89 stable nightly; do
+    for opt in 0 1; do
+        build_mu $tc c04_mu__${tc}__o${opt} -C opt-level=$opt
+    done
+done
+build_mu 1.89 c04_mu__1.89__o0__d5 -C opt-level=0 -C dwarf-version=5
+build_mu stable c04_mu__stable__o0__nopie -C opt-level=0 -C relocation-model=static
